@@ -192,6 +192,9 @@ func c16Pluck(c *fw.Ctx, obj int, keys []string) *fw.Violation {
 		&If{Cond: &IsExpr{Mem(V("r"), "a"), "array"}, Then: Blk(Ex(CallE(Mem(Mem(V("r"), "a"), "push"), N("9"))), Pr(V("$"), V("r")))},
 		// the result is a new object: storing into it does not touch the original
 		Ex(Asg("=", Mem(V("r"), "fresh"), N("1"))), Pr(V("$")),
+		// ... also for keys that were plucked, in both directions
+		Ex(Asg("=", Mem(V("r"), "a"), S("changed in r"))), Ex(&Postfix{"++", Mem(V("r"), "b")}), Pr(V("$"), V("r")),
+		Ex(Asg("=", Mem(V("$"), "a"), S("changed in $"))), Ex(Asg("=", Mem(V("$"), "z"), N("7"))), Pr(V("$"), V("r")),
 	}
 	pc := &progCase{P: &Program{Rules: []*Rule{{Body: Blk(body...)}}}, Files: []inFile{{"in.json", c16Object(obj)}}}
 	v, _, _ := pc.check(c)
